@@ -1025,7 +1025,8 @@ Definition led_step (op o : list Z) (l : Led) : option Led :=
     Some (mkLed l.(l_side) l.(l_mrb) l.(l_sw) [1; 0; 0; 0; 0; 0; 0] 0 0 0 0 0 0 0 l.(l_rep) []
                 (map (fun _ => None) l.(l_flog)) false)
   else if c =? 16 then
-    if r0 =? 0 then
+    (* STOP_SENDING for a stream that does not exist (yet) is ignored by the implementation *)
+    if (r0 =? 0) && (led_known l id || ((0 <=? id) && id_remote_bi l.(l_side) id && (id_index id <? l.(l_mrb)))) then
       Some (led_with_tab (tab_set id (mkSL e.(u_used) e.(u_lim) e.(u_acked) false e.(u_reset) e.(u_touched) e.(u_exact)) l.(l_tab)) l)
     else Some l
   else if c =? 18 then
